@@ -47,18 +47,32 @@ impl Tx {
 
 pub fn transcript(r: &mut Runner, stride: u64, dump: u64, path: Option<&str>) {
     let mut tx = Tx { idx: 0, stride: stride.max(1), dump, out: Vec::new() };
-    let lvl = level(r).max(1);
+    let lvl = level(r);
     // byte searches and counts
     let maxlen = if r.tier == Tier::Thorough { 200 } else { 130 };
     let nd = [b'a', 0x80, 0xFF];
     let mut buf = Vec::new();
     let mut unit = 0u64;
-    for len in 0..=maxlen {
+    let lens: Vec<usize> = if r.tier == Tier::Miri {
+        vec![0, 1, 7, 8, 9, 15, 16, 17, 31, 32, 33, 47, 63, 64, 65, 100, 129]
+    } else {
+        (0..=maxlen).collect()
+    };
+    for &len in &lens {
         unit += 1;
         if !r.mine(unit) {
             continue;
         }
-        for pi in 0..=len {
+        let pis: Vec<usize> = if r.tier == Tier::Miri {
+            let mut v = vec![0, 1, 15, 16, 17, 31, 32, 33, len / 2, len.saturating_sub(17), len.saturating_sub(16), len.saturating_sub(2), len.saturating_sub(1), len];
+            v.retain(|&x| x <= len);
+            v.sort();
+            v.dedup();
+            v
+        } else {
+            (0..=len).collect()
+        };
+        for pi in pis {
             let p = if pi == len { None } else { Some(pi) };
             let place = [Place::Arena(0), Place::Arena(1), Place::Arena(15), Place::Arena(33), Place::GuardR, Place::GuardL][(len + pi) % 6];
             for n in 1..=3u8 {
@@ -91,7 +105,11 @@ pub fn transcript(r: &mut Runner, stride: u64, dump: u64, path: Option<&str>) {
             tx.run(r, Api::new(Fam::Block, Be::All, 0, false, 0), hay, ndl, hp, nt);
             tx.run(r, Api::new(Fam::Block, Be::All, 0, true, 0), hay, ndl, hp, nt);
         };
-        let (nmax, hmax) = if lvl >= 2 { (5, 11) } else { (4, 9) };
+        let (nmax, hmax) = match lvl {
+            0 => (2, 4),
+            1 => (4, 9),
+            _ => (5, 11),
+        };
         exhaustive_pairs(r, b"ab", nmax, hmax, &[(0, 0), (70, 30)], &mut run_pair);
         structured_pairs(r, if lvl >= 2 { 1100 } else { 320 }, &mut run_pair);
         random_pairs(r, false, &mut run_pair);
